@@ -103,6 +103,36 @@ def stage_monitor(ctx):
                 st.case(('aa55m', r, pl))
                 if not d or d['type'] != 0x0239 or d['payload'] != bytes([r >> 8, r & 255, 8]) + pl:
                     bad('aa55-frame', f'Aa55WriteMultiCommand({r},{pl.hex()}) sends {req.hex()} -> {d}', args=[r, pl.hex()], wire=req.hex())
+    # --- through the factories of several protocol / inverter objects with DIFFERENT communication addresses in one process, the same registers
+    #     requested in interleaved order: every frame carries the address of the object that built it
+    import goodwe
+    importlib.reload(importlib.import_module('goodwe.inverter')); importlib.reload(importlib.import_module('goodwe.et')); importlib.reload(importlib.import_module('goodwe.dt'))
+    import goodwe.et as ETM, goodwe.dt as DTM
+    for klass, parse, port in ((P.UdpInverterProtocol, F.parse_rtu_req, 8899), (P.TcpInverterProtocol, F.parse_tcp_req, 502)):
+        cas = [0xf7, 0x7f, 0x11, 1] + [ctx.rng.randrange(1, 248) for _ in range(2 if not ctx.deep else 10)]
+        protos = [(ca, klass('192.0.2.1', port, ca, 1, 0)) for ca in cas]
+        for round_ in range(2):
+            for r, cnt in ((35100, 125), (47000, 1), (45127, 1), (ctx.rng.randrange(65536), ctx.rng.randrange(1, 126))):
+                for ca, pr in (protos if round_ == 0 else protos[::-1]):
+                    for what, cmd, want in (('read_command', pr.read_command(r, cnt), (3, r, cnt)), ('write_command', pr.write_command(r, cnt), (6, r, cnt)),
+                                            ('write_multi_command', pr.write_multi_command(r, bytes([0, 1, 2, 3])), (16, r, 2))):
+                        d = parse(cmd.request_bytes())
+                        st.case((klass.__name__, what, ca, r, cnt, round_))
+                        got = d and (d['addr'], d['fn'], d['reg'], d['val'] if d['fn'] != 16 else d['count'])
+                        if got != (ca,) + want:
+                            bad('factory-frame', f'{klass.__name__}(comm_addr={ca}).{what}({r}, ..) after the same call on other objects sends {cmd.request_bytes().hex()} '
+                                                 f'which decodes to {d}', cls=klass.__name__, factory=what, comm_addr=ca, args=[r, cnt], wire=cmd.request_bytes().hex())
+    for fam, mod, port in (('ET', ETM.ET, 8899), ('ET', ETM.ET, 502), ('DT', DTM.DT, 8899), ('DT', DTM.DT, 502)):
+        parse = F.parse_rtu_req if port == 8899 else F.parse_tcp_req
+        invs = [(ca, mod('192.0.2.1', port, ca)) for ca in (0xf7, 0x11, 0x7f, 0x25)]
+        for ca, inv in invs + invs[::-1]:
+            cmds = [(n, getattr(inv, n)) for n in sorted(vars(inv)) if n.startswith('_READ_')] + [('_read_command(45127,1)', inv._read_command(45127, 1))]
+            for n, cmd in cmds:
+                d = parse(cmd.request_bytes())
+                st.case((fam, port, ca, n))
+                if not d or d['addr'] != ca or d['fn'] != 3:
+                    bad('factory-frame', f'{fam}(port={port}, comm_addr={ca}).{n} sends {cmd.request_bytes().hex()} which decodes to {d}', family=fam, port=port, comm_addr=ca,
+                        command=n, wire=cmd.request_bytes().hex())
     # --- transaction ids over the wrap
     for start in (0, 1, 65530, 65533, 65534):
         P._modbus_tcp_tx = start
@@ -197,7 +227,7 @@ SPEC = dict(
         design_ref='DESIGN.md section 5 (C03)'),
     stages=[stage_translation, stage_monitor, PCM.stage_for('C03')],
     theorems=['C03_rtu', 'C03_rtu_multi', 'C03_crc', 'C03_tcp', 'C03_tcp_multi', 'C03_tx', 'C03_aa55_read',
-              'C03_aa55_write', 'C03_aa55_write_multi'],
+              'C03_aa55_write', 'C03_aa55_write_multi', 'C03_factories_construct_from_the_own_address'],
     rule='translator validation: generated builders vs Python on boundary + seeded arguments incl. out-of-domain ones '
          '(distinct argument tuples); wire monitor: every command class x (address, register, value) grid, payload sizes, '
          'transaction-id histories across the 0xFFFF wrap, decoded by the independent decoder harness/frames.py',
